@@ -612,7 +612,7 @@ func applyEdit(r *Rand, doc M, kind int) string {
 
 // applyEdit2: the rarer rules (one offender per call; the caller repeats kinds so that several offenders of one rule
 // meet in one document, which is what makes order-dependent early exits and message texts visible).
-const nEditKinds2 = 21
+const nEditKinds2 = 22
 
 func applyEdit2(r *Rand, doc M, kind int, anyOp func() (string, string, M), plainDef func() (string, M)) string {
 	paths, _ := doc["paths"].(M)
@@ -790,6 +790,24 @@ func applyEdit2(r *Rand, doc M, kind int, anyOp func() (string, string, M), plai
 						return "bad-path-param-pattern"
 					}
 				}
+			}
+		}
+	case 21: // a $ref that points INSIDE a definition whose name extends another definition's name (Pet / PetStore)
+		if n, d := plainDef(); d != nil {
+			defs, _ := doc["definitions"].(M)
+			long := n + pick(r, []string{"x", "Store", "s"})
+			props := M{"inner" + sfx: M{"type": "string"}, "id" + long: M{"type": "integer", "format": "int64"}}
+			defs[long] = M{"type": "object", "properties": props}
+			// the pointer is used from the shorter-named definition, or from a third one
+			user := d
+			if others := sortedKeys(defs); len(others) > 2 && r.Chance(500) {
+				if o, ok := defs[pick(r, others)].(M); ok && o["properties"] != nil {
+					user = o
+				}
+			}
+			if up, ok := user["properties"].(M); ok {
+				up["ptr"+sfx] = M{"$ref": "#/definitions/" + long + "/properties/inner" + sfx}
+				return "deep-pointer-ref:" + long
 			}
 		}
 	case 18: // a parameter in the shared #/parameters section that is broken (bad default) and used by an operation
